@@ -161,47 +161,43 @@ theorem normalize_fn_errors (τ : Ty) (c : Rat) :
   have he : D.isEmpty = false := by cases D <;> simp_all
   simp [normalizeFn, he, hm]
 
-/-- **T18.3 (method), partial: requested value `c ≠ 0`.**  On a well-formed non-empty model the
-in-place `D.normalize(c)` succeeds, keeps the keys (and their order), multiplies every coefficient by
-the one factor `c / M`, yields largest magnitude `|c|`, stays a well-formed object of the same type
-and agrees with the function.  For `c = 0` the code fails: see `normalize_method_zero_fails`. -/
-theorem normalize_method_partial (κ : Kind) (D : Poly) (c : Rat) (h : WF (squash κ) D) (hne : D ≠ [])
-    (hc : c ≠ 0) :
+/-- **T18.3 (method), every requested value `c` (including `0` and negative values).**  On a
+well-formed non-empty model the in-place `D.normalize(c)` succeeds, multiplies every coefficient by the
+one factor `c / M`, yields largest magnitude `|c|`, stays a well-formed object of the same type,
+computes exactly what the function computes, and for `c ≠ 0` keeps the keys and their order. -/
+theorem normalize_method (κ : Kind) (D : Poly) (c : Rat) (h : WF (squash κ) D) (hne : D ≠ []) :
     ∃ res, normalizeM κ D c = .ok res ∧
-      keys res = keys D ∧
       (∃ m, m * maxAbs D = c ∧ ∀ k, get res k = m * get D k) ∧
       maxAbs res = |c| ∧
       WF (squash κ) res ∧
-      normalizeFn (.da κ) D c = .ok res := by
+      normalizeFn (.da κ) D c = .ok res ∧
+      (c ≠ 0 → keys res = keys D) := by
   have hpos := wf_maxAbs_pos h hne
-  have hm : c / maxAbs D ≠ 0 := div_ne_zero hc (ne_of_gt hpos)
-  refine ⟨scaleAll (c / maxAbs D) D, normalizeM_closed h hne hc, keys_scaleAll _ _,
-    ⟨c / maxAbs D, div_mul_cancel₀ _ (ne_of_gt hpos), fun k => get_scaleAll _ _ k⟩, ?_,
-    scaleAll_wf h hm, ?_⟩
-  · rw [maxAbs_scaleAll, abs_div_mul_self hpos]
-  · rw [normalizeFn_closed (.da κ) c h.nodup (canonKeys_of_wf h) hne (ne_of_gt hpos)]
+  have hck := canonKeys_of_wf h
+  refine ⟨normOut (.da κ) (c / maxAbs D) D, normalizeM_closed c h hne,
+    ⟨c / maxAbs D, div_mul_cancel₀ _ (ne_of_gt hpos), fun k => get_normOut _ _ h.nodup k⟩, ?_,
+    wf_normOut_da _ h.nodup hck, normalizeFn_closed (.da κ) c h.nodup hck hne (ne_of_gt hpos), ?_⟩
+  · rw [maxAbs_normOut, abs_div_mul_self hpos]
+  · intro hc
+    have hm : c / maxAbs D ≠ 0 := div_ne_zero hc (ne_of_gt hpos)
     simp only [normOut]
-    rw [dropZeros_of_nonzero (scaleAll_wf h hm).nonzero]
+    rw [dropZeros_of_nonzero (scaleAll_wf h hm).nonzero, keys_scaleAll]
 
 /-- the method on the empty model does nothing (`if self:`) -/
 theorem normalize_method_empty (κ : Kind) (c : Rat) : normalizeM κ [] c = .ok [] := rfl
 
-/-- **The method does not meet the property for requested value 0**: on every well-formed non-empty
-model `D.normalize(0)` raises (`RuntimeError: dictionary changed size during iteration`, error class
-`other`), whereas the function returns the empty model. -/
-theorem normalize_method_zero_fails (κ : Kind) (D : Poly) (h : WF (squash κ) D) (hne : D ≠ []) :
-    normalizeM κ D 0 = .error .other ∧ normalizeFn (.da κ) D 0 = .ok [] := by
-  refine ⟨normalizeM_zero h hne, ?_⟩
+/-- **Requested value 0**: method and function agree, both give the empty (all-zero) model.
+(Before the repair of `DictArithmetic.normalize` — iteration over the live dict — the method raised
+`RuntimeError` here; the harness keeps these inputs as regression cases.) -/
+theorem normalize_method_zero (κ : Kind) (D : Poly) (h : WF (squash κ) D) (hne : D ≠ []) :
+    normalizeM κ D 0 = .ok [] ∧ normalizeFn (.da κ) D 0 = .ok [] := by
   have hpos := wf_maxAbs_pos h hne
-  rw [normalizeFn_closed (.da κ) 0 h.nodup (canonKeys_of_wf h) hne (ne_of_gt hpos)]
-  simp only [normOut, zero_div]
-  congr 1
-  unfold dropZeros
-  rw [List.filter_eq_nil_iff]
-  intro kv hkv
-  simp only [scaleAll, List.mem_map] at hkv
-  obtain ⟨kv0, _, rfl⟩ := hkv
-  simp
+  have e : normOut (.da κ) (0 / maxAbs D) D = [] := by
+    simp only [normOut, zero_div]
+    exact dropZeros_scaleAll_zero D
+  refine ⟨?_, ?_⟩
+  · rw [normalizeM_closed 0 h hne, e]
+  · rw [normalizeFn_closed (.da κ) 0 h.nodup (canonKeys_of_wf h) hne (ne_of_gt hpos), e]
 
 /-! ## Non-vacuity: concrete instances -/
 
@@ -248,7 +244,11 @@ example : WF (squash .pubo) [([0, 1], 1), ([1, 2, 3], -4)] := by
 example : (normalizeFn .builtin [([0], 0), ([1], 2)] (-1)).toOption = some [([0], 0), ([1], -1)] := by
   decide +kernel
 
-/-- the failing input of `normalize_method_zero_fails`: `PUBO({(0,): 2, (1,): -4}).normalize(0)` -/
-example : normalizeM .pubo [([0], 2), ([1], -4)] 0 = .error .other := by decide +kernel
+/-- the former failing input `PUBO({(0,): 2, (1,): -4}).normalize(0)`: now the empty model -/
+example : (normalizeM .pubo [([0], 2), ([1], -4)] 0).toOption = some [] := by decide +kernel
+
+/-- a negative requested value through the method -/
+example : (normalizeM .quso [([0], 2), ([0, 1], -4)] (-1)).toOption
+    = some [([0], -1/2), ([0, 1], 1)] := by decide +kernel
 
 end Qv.C18
